@@ -24,6 +24,14 @@ ASSUMPTIONS = ["dilute(new_name=...) is not generated here: the recipe keeps the
                "it, and tracking-by-name of a renamed object has no documented meaning (bake==eager for it is C08's)",
                "explicit units only (documentation and code disagree on the default unit)",
                "ledger comes from the library's direct operations (validated by C01/C02/C17)"]
+def shard_config(shard, tier):
+    """two of eight shards run under other documented settings: storage units (mmol, mL), and default densities
+    2.5 / 0.4 with display units that differ from the storage units"""
+    return {5: {'moles_storage_unit': 'mmol', 'volume_storage_unit': 'mL'},
+            6: {'default_solid_density': 2.5, 'default_enzyme_density': 0.4, 'moles_display_unit': 'nmol',
+                'volume_display_unit': 'mL'}}.get(shard % 8)
+
+
 REQUIRED_CLASSES = {'quick': ['query:subset', 'query:plates', 'timeframe:stage', 'with-remove'],
                     'thorough': ['query:subset', 'query:plates', 'timeframe:stage', 'with-remove', 'query:unknown-dest',
                                  'expect:negative']}
